@@ -48,3 +48,42 @@ Example C04_example_runs : run_ref 200 ex_prog = Done [48;10;49;10;51;10;98;105;
 Proof. vm_compute. reflexivity. Qed.
 Example C04_example_compiles : compile_program ex_prog <> None.
 Proof. vm_compute. discriminate. Qed.
+
+(* ---- the VM, through the compiler-correctness simulation (Back/VmSim*.v) ----
+   At EVERY step budget the VM running the compiled bytecode of an accepted program either is still running, or ends
+   exactly like the reference semantics, or stops at its documented frame-stack limit.  None of the machine's internal
+   errors (type mismatch, stack underflow, bad local/global index, running off the code, a signal) is reachable. *)
+From NV Require Import Back.VmExec Back.VmSimDefs Back.VmSimMod Back.VmSimFinal Back.VmSimExamples Back.VmFuel.
+
+Theorem C04_vm_fuel_is_only_a_budget : forall M n k r, run_vm n M = r -> r <> VOutOfFuel -> run_vm (n + k) M = r.
+Proof. exact run_vm_mono. Qed.
+Print Assumptions C04_vm_fuel_is_only_a_budget.
+
+Theorem C04_accepted_vm_faithful : forall pr M fuel,
+  wt pr = true -> compile_program pr = Some M -> small_program pr -> fuel_small fuel ->
+  match run_ref fuel pr with
+  | Done out ex => forall fv, run_vm fv M = VOutOfFuel \/ run_vm fv M = VDone out ex \/ exists o, run_vm fv M = VError ECallDepth o
+  | Faulted FAssert out => forall fv, run_vm fv M = VOutOfFuel \/ run_vm fv M = VError EAssert out \/ exists o, run_vm fv M = VError ECallDepth o
+  | StuckO => False
+  | _ => True
+  end.
+Proof. exact accepted_vm_faithful. Qed.
+Print Assumptions C04_accepted_vm_faithful.
+
+Theorem C04_accepted_vm_no_internal_error : forall pr M fuel,
+  wt pr = true -> compile_program pr = Some M -> small_program pr -> fuel_small fuel ->
+  (exists out ex, run_ref fuel pr = Done out ex) \/ (exists out, run_ref fuel pr = Faulted FAssert out) ->
+  forall fv, match run_vm fv M with
+             | VBad | VFellOff _ | VSignal _ => False
+             | VError e _ => e = ECallDepth \/ e = EAssert
+             | _ => True end.
+Proof.
+  intros pr M fuel Hwt Hc Hs Hf Hr fv. pose proof (accepted_vm_no_internal_error pr M fuel Hwt Hc Hs Hf Hr fv) as H.
+  unfold vm_internal in H. destruct (run_vm fv M) as [| e o | | | |]; try exact I; try (apply H; exact I).
+  destruct e; try (exfalso; apply H; split; discriminate); [left|right]; reflexivity.
+Qed.
+Print Assumptions C04_accepted_vm_no_internal_error.
+
+(* satisfiable: the simulation's example program (global, recursion, for/while/break/continue, strings) is accepted *)
+Example C04_vm_example_accepted : wt VmSimExamples.ex_prog = true /\ small_program VmSimExamples.ex_prog.
+Proof. split; [vm_compute; reflexivity | exact ex_prog_small]. Qed.
